@@ -491,7 +491,7 @@ Section Total.
         right. right. right. left. destruct (shape_tuple _ Hk) as (TS & HTS). exists TS. rewrite Hc. split; [exact HTS|]. rewrite HTS in E1, Hcb.
         rewrite tups_collection in E1.
         destruct (tuple_projection o d (map snd TS) false u ltac:(destruct TS; [discriminate|discriminate]) E1) as (F & _ & _ & Hcol).
-        intros i. apply (IH (S d) _ _ (tuple_children n TS Hcb i) (Hcol i)).
+        intros i. destruct (Hcol i) as (T0 & R0 & _). apply (IH (S d) _ _ (tuple_children n TS Hcb i) R0).
       + (* enum variants *)
         right. right. right. right. pose proof (shape_union _ Hk) as HF. rewrite Hc. split; [exact HF|].
         destruct (union_projection o d (c0 :: r0) false u ltac:(discriminate) HF E1) as (V & _ & (_ & _ & Hsel)).
